@@ -9,11 +9,15 @@ import (
 	"encoding/json"
 	"fmt"
 	"math/rand/v2"
+	"path/filepath"
 	"runtime"
 	"strings"
 	"sync"
 	"testing"
 	"unicode/utf8"
+	"verif/harness/internal/httpdrv"
+	"verif/harness/internal/ops"
+	"verif/harness/internal/realdb"
 
 	"github.com/tailscale/setec/acl"
 
@@ -361,6 +365,136 @@ func TestC07(t *testing.T) {
 			}
 		}
 	}
-	r.Require("exhaustive_pairs", "exhaustive_pairs_matching", "random_pairs", "random_pairs_matching", "ruleset_allowed", "ruleset_refused", "ruleset_decisions_via_json", "concurrent_matches")
+	// ---- the same rule VALUES used again after they were changed: a rule is what its fields say now ----
+	rng = r.Rand(3)
+	for i := 0; i < r.N(3000, 40000); i++ {
+		rules := genRules(rng)
+		if len(rules) == 0 {
+			continue
+		}
+		real := toACL(rules)
+		query := func(stage string) bool {
+			for k := 0; k < 6; k++ {
+				act := acts[rng.IntN(5)]
+				name := rnames[rng.IntN(len(rnames))]
+				want := refmodel.Allowed(rules, act, name)
+				got, pan := safeAllow(real, acl.Action(act), name)
+				r.Eval(1)
+				r.Count("decisions_on_edited_rules", 1)
+				if pan != nil || got != want {
+					r.Violation("allow-differs-after-edit", -1, fmt.Sprintf("%s: Rules.Allow(%q,%q)=%t (panic %v), the rules as they stand now say %t", stage, act, name, got, pan, want), map[string]any{"rules": rules})
+					return false
+				}
+			}
+			return true
+		}
+		if !query("fresh") {
+			break
+		}
+		switch rng.IntN(4) {
+		case 0: // one pattern edited in place (same number of patterns)
+			ri := rng.IntN(len(rules))
+			if len(rules[ri].Patterns) == 0 {
+				continue
+			}
+			pi := rng.IntN(len(rules[ri].Patterns))
+			np := rpats[rng.IntN(len(rpats))]
+			rules[ri].Patterns[pi] = np
+			real[ri].Secret[pi] = acl.Secret(np)
+		case 1: // an equally long list assigned
+			ri := rng.IntN(len(rules))
+			nl := make([]string, len(rules[ri].Patterns))
+			al := make([]acl.Secret, len(nl))
+			for k := range nl {
+				nl[k] = rpats[rng.IntN(len(rpats))]
+				al[k] = acl.Secret(nl[k])
+			}
+			rules[ri].Patterns, real[ri].Secret = nl, al
+		case 2: // the next policy decoded into the same variable
+			next := genRules(rng)
+			for len(next) != len(rules) {
+				next = genRules(rng)
+			}
+			doc, _ := json.Marshal(next)
+			if err := json.Unmarshal(doc, &real); err != nil {
+				continue
+			}
+			// (decoding into an existing value keeps what the document does not mention: mirror that)
+			var mirror []refmodel.Rule
+			b, _ := json.Marshal(real)
+			json.Unmarshal(b, &mirror)
+			rules = mirror
+		case 3: // a copy of a rule with other patterns, beside the original
+			ri := rng.IntN(len(rules))
+			cp := real[ri]
+			cp.Secret = []acl.Secret{acl.Secret(rpats[rng.IntN(len(rpats))])}
+			for len(cp.Secret) < len(real[ri].Secret) {
+				cp.Secret = append(cp.Secret, acl.Secret(rpats[rng.IntN(len(rpats))]))
+			}
+			real = acl.Rules{cp}
+			mr := refmodel.Rule{Actions: rules[ri].Actions}
+			for _, sp := range cp.Secret {
+				mr.Patterns = append(mr.Patterns, string(sp))
+			}
+			rules = []refmodel.Rule{mr}
+		}
+		if !query("after an edit") {
+			break
+		}
+	}
+
+	// ---- rule sets as a peer presents them: through the capability map and the real front door ----
+	frontDoor(t, r, genRules, rpats, rnames)
+
+	r.Require("decisions_on_edited_rules", "decisions_through_the_front_door", "exhaustive_pairs", "exhaustive_pairs_matching", "random_pairs", "random_pairs_matching", "ruleset_allowed", "ruleset_refused", "ruleset_decisions_via_json", "concurrent_matches")
 	r.Rule("exhaustive: every (pattern,name) pair of the bounded spaces listed in exhaustive_spaces; random: Unicode patterns up to ~40 pieces with names derived by substituting each '*' and optionally perturbing; rule sets of 0-4 rules with 0-3 actions/patterns. A case is non-trivial/distinct by (number of stars capped at 3, leading star, trailing star, has regexp metacharacter, has newline, expected outcome) resp. (rule-set size, expected decision)")
+}
+
+// frontDoor: the decision a peer actually gets. Rule sets (also with repeated rules, rules that look alike
+// when printed, patterns with spaces) are delivered as the peer's capability grant; an info request per name
+// is refused (403) exactly when no single rule lists the action with a pattern matching the whole name.
+func frontDoor(t *testing.T, r *evid.Run, genRules func(*rand.Rand) []refmodel.Rule, rpats, rnames []string) {
+	dir := evid.TempDir(t)
+	d, err := realdb.Open(filepath.Join(dir, "frontdoor.db"), realdb.DummyKey("c07fd"))
+	if err != nil {
+		t.Fatal(err)
+	}
+	srv, err := httpdrv.New(d)
+	if err != nil {
+		t.Fatal(err)
+	}
+	const addr = "100.64.0.7:7"
+	rng := r.Rand(4)
+	lookalikes := [][]refmodel.Rule{
+		{{Actions: []string{"info"}, Patterns: []string{"dev ops"}}, {Actions: []string{"info"}, Patterns: []string{"dev", "ops"}}},
+		{{Actions: []string{"info", "get"}, Patterns: []string{"a"}}, {Actions: []string{"info"}, Patterns: []string{"get a"}}, {Actions: []string{"info get"}, Patterns: []string{"a"}}},
+		{{Actions: []string{"info"}, Patterns: []string{"a b", "x"}}, {Actions: []string{"info"}, Patterns: []string{"a", "b x"}}, {Actions: []string{"info"}, Patterns: []string{"a", "b", "x"}}},
+		{{Actions: []string{"info"}, Patterns: []string{"x"}}, {Actions: []string{"info"}, Patterns: []string{"x"}}, {Actions: []string{"info"}, Patterns: []string{"dev/*"}}},
+	}
+	names := append(append([]string{}, rnames...), "dev", "ops", "dev ops", "get a", "a b", "b x", "b")
+	for i := 0; i < r.N(400, 6000); i++ {
+		rules := genRules(rng)
+		if i < 4*len(lookalikes) {
+			rules = lookalikes[i%len(lookalikes)]
+		} else if rng.IntN(4) == 0 && len(rules) > 0 {
+			rules = append(rules, rules[rng.IntN(len(rules))]) // a genuinely repeated rule
+		}
+		srv.SetWho(addr, httpdrv.Who{Login: "peer@verif", Node: "peer", Rules: rules})
+		for k := 0; k < 10; k++ {
+			name := names[rng.IntN(len(names))]
+			if name == "" {
+				continue
+			}
+			want := refmodel.Allowed(rules, "info", name)
+			res, rep, _ := srv.Do(addr, ops.Op{Kind: ops.Info, Name: name})
+			r.Eval(1)
+			r.Count("decisions_through_the_front_door", 1)
+			got := res.Class != refmodel.Denied
+			if rep.Status >= 500 || got != want {
+				r.Violation("allow-differs-at-the-front-door", -1, fmt.Sprintf("a peer presenting the rules %+v asks for info on %q: status %d; a single rule listing the action with a matching pattern exists: %t", rules, name, rep.Status, want), map[string]any{"rules": rules, "name": name})
+				return
+			}
+		}
+	}
+	r.Distinct("front door")
 }
